@@ -103,6 +103,17 @@ def obligations(tier, seed):
                 obs.append(ob("c02.%s.%s.k%d" % (scheme, "-".join(map(str, lens)), L), "harness.c02", "h_absent",
                               {"scheme": scheme, "over": {}, "lens": lens, "klen": L, "seed": seed},
                               budget_s=300 if tier == "quick" else 900, per_path_s=30 if tier == "quick" else 200))
+    # non-default configurations (block sizes, locality, key sizes): the absent-keyword path of every one of them
+    from harness.c01 import CONFIGS
+    for scheme in PL.SCHEMES:
+        cfgs = CONFIGS[scheme][1:] if tier == "thorough" else CONFIGS[scheme][1:3]
+        for ci, over in enumerate(cfgs, 1):
+            for lens in ([2, 1, 1, 1], [5, 2, 1, 1]) if tier == "thorough" else ([2, 1, 1, 1],):
+                if not _fits(scheme, over, [x for x in lens if x]):
+                    continue
+                obs.append(ob("c02.%s.cfg%d.%s.k2" % (scheme, ci, "-".join(map(str, lens))), "harness.c02", "h_absent",
+                              {"scheme": scheme, "over": over, "lens": lens, "klen": 2, "seed": seed},
+                              budget_s=300 if tier == "quick" else 900, per_path_s=30 if tier == "quick" else 200))
     for scheme in PL.SCHEMES:
         obs.append(ob("c02.other_index.%s" % scheme, "harness.c02", "h_other_index",
                       {"scheme": scheme, "over": {}, "seed": seed}, budget_s=300))
